@@ -29,8 +29,6 @@ SITE_TABLE = {
         (('dyn-callback:VariableObserver::changed<-Story::notify_variable_changed',), 'ok',
          'order of observer callbacks across *distinct* variables is not among C03\'s observables (text, tags, '
          'choices, variable values, visit counts, saves); each variable still gets exactly one call (C11)'),
-    'Story::remove_variable_observer|HashMap::iter_mut|#0':
-        (('seq:Vec::push',), 'ok', 'the vector only collects keys that are deleted afterwards; its order is never observed'),
     'Container::build_string_of_hierarchy|HashMap::values|#0':
         (('seq:String::push', 'seq:String::push<-Container::build_string_of_hierarchy',
           'seq:String::push_str<-Container::build_string_of_hierarchy'), 'ok',
